@@ -603,6 +603,23 @@ Definition column_default (t : otype) (x : pyval) : res pyval :=
 
 End Parse.
 
+(* ------------------------------------------------------------------ specification side *)
+(* (used by the statements of Props/C07.v; the casts above do not depend on them) *)
+(* the blanks int() / float() skip in ASCII text: space, \t \n \v \f \r *)
+Definition blank (c : N) : bool := ((c =? 32) || ((9 <=? c) && (c <=? 13)))%N.
+(* a is a prefix of b *)
+Definition prefix {A} (a b : list A) : Prop := exists c, b = a ++ c.
+(* the value types the property names *)
+Definition value_types : list otype :=
+  [T_BOOLEAN; T_INTEGER; T_DOUBLE; T_DECIMAL; T_VARCHAR; T_BLOB; T_DATE; T_TIMESTAMP; T_ARRAY].
+(* floats that repr() can denote: everything except NaNs with a non-default payload or sign *)
+Definition float_canonical (f : N) : bool :=
+  negb ((f_exp f =? 2047) && negb (f_man f =? 0)) || N.eqb f 9221120237041090560.
+(* DECIMAL(p, s) *)
+Definition dec_kw (p s : Z) : kwargs := mkkw None (Some p) (Some s) None.
+(* the fraction str(datetime) prints: nothing for whole seconds, else six digits *)
+Definition frac_of (us : Z) : list N := if us =? 0 then [] else d6 us.
+
 (* ------------------------------------------------------------------ correspondence *)
 (* per-case oracle tables: what CPython / orjson returned on the arguments this case needs *)
 Record otab := mkotab {
